@@ -172,3 +172,59 @@ theorem revertToDPOSCheck_total (nPrograms : Nat) (code : Bytes) : revertToDPOSC
   exact crcArbitersMN_total code
 
 end ElaVerif.CoinbaseTotal
+
+namespace ElaVerif.CoinbaseTotal
+open ElaVerif.Script
+
+theorem keyAt_lt {l : List Nat} {i : Nat} (h : i < l.length) : ∃ k, keyAt l i = .val k := by
+  simp [keyAt, h]
+
+theorem nextSameLoop_total (cr dpos : List Nat) : ∀ (next : List NextArb) (ci di : Nat),
+    nextSameLoop true cr dpos next ci di ≠ .panic
+  | [], _, _ => by unfold nextSameLoop; exact val_np _
+  | v :: rest, ci, di => by
+    unfold nextSameLoop
+    cases v.isCRC
+    · simp only [Bool.false_eq_true, if_false]
+      apply ite_np (fun _ => val_np _); intro h
+      have hl : di < dpos.length := by
+        apply Classical.byContradiction; intro hc; apply h; exact ⟨trivial, by omega⟩
+      obtain ⟨k, hk⟩ := keyAt_lt hl
+      rw [hk]; simp only [R.bind_val]
+      exact ite_np (fun _ => nextSameLoop_total cr dpos rest _ _) (fun _ => val_np _)
+    · simp only [if_true]
+      apply ite_np (fun _ => val_np _); intro h
+      have hl : ci < cr.length := by
+        apply Classical.byContradiction; intro hc; apply h; exact ⟨trivial, by omega⟩
+      obtain ⟨k, hk⟩ := keyAt_lt hl
+      rw [hk]; simp only [R.bind_val]
+      exact ite_np (fun _ => nextSameLoop_total cr dpos rest _ _) (fun _ => val_np _)
+
+theorem nextSame_total (cr dpos : List Nat) (next : List NextArb) : nextSame true cr dpos next ≠ .panic := by
+  unfold nextSame
+  exact ite_np (fun _ => val_np _) (fun _ => nextSameLoop_total cr dpos next 0 0)
+
+theorem v1Loop_total (keys : List Nat) : ∀ (l : List (Nat × Bool)) (i : Nat), i + l.length ≤ keys.length →
+    v1Loop keys l i ≠ .panic
+  | [], _, _ => by unfold v1Loop; exact val_np _
+  | (id, e) :: rest, i, h => by
+    unfold v1Loop
+    obtain ⟨k, hk⟩ := keyAt_lt (l := keys) (i := i) (by simp at h; omega)
+    rw [hk]; simp only [R.bind_val]
+    exact ite_np (fun _ => v1Loop_total keys rest (i + 1) (by simp at h ⊢; omega)) (fun _ => val_np _)
+
+theorem nextSameV1_total (cr dpos : List Nat) (next nextCRC : List (Nat × Bool)) :
+    nextSameV1 true cr dpos next nextCRC ≠ .panic := by
+  unfold nextSameV1
+  apply ite_np (fun _ => val_np _); intro hl
+  cases ha : v1Loop dpos next 0 with
+  | panic => exact absurd ha (v1Loop_total dpos next 0 (by omega))
+  | val a =>
+    simp only [R.bind_val]
+    apply ite_np (fun _ => val_np _); intro _
+    apply ite_np (fun _ => val_np _); intro hg
+    exact v1Loop_total cr nextCRC 0 (by
+      have : ¬ cr.length < nextCRC.length := by intro hc; apply hg; exact ⟨trivial, hc⟩
+      omega)
+
+end ElaVerif.CoinbaseTotal
